@@ -219,6 +219,11 @@ def invalid_strings(T, tier):
                     g[i], g[i + 1] = g[i + 1], g[i]
                     cand.append(g)
             cand.append(f + [""])
+            cand.append(f[:1])                       # everything but one metric missing
+            cand.append(f[:2])
+            cand.append(f[2:])                       # two mandatory metrics missing
+            cand.append(f[1:3] + f[5:])
+            cand.append(f[::-1][:len(f) - 3])
             for c in cand:
                 out.append(P + "/".join(c))
             for bp in BAD_PREFIX:
